@@ -1172,11 +1172,6 @@ def run(ctx, replay):
     fails = vcheck.lean_gate(ctx, ["AdeptProofs.Props.C06"], thms, required=[NS + r for r in REQUIRED])
     exes = build_all()
     ctx.pending = []
-    # entries proposed for known_findings.json by this check's builder (same matching rule: open + signature)
-    prop = os.path.join(vbuild.VERIF, "fixes", "known_findings_C06.proposed.json")
-    if os.path.exists(prop):
-        have = {f.get("id") for f in ctx.findings}
-        ctx.findings = list(ctx.findings) + [f for f in json.load(open(prop)).get("findings", []) if f.get("id") not in have]
     ctx.assumptions += [
         "the default build is given admissible arguments only (scalar indices and range end points in 0..n-1, non-zero "
         "stride); permute is given a permutation; direction-inconsistent ranges further apart than one stride and "
@@ -1186,7 +1181,7 @@ def run(ctx, replay):
         "but are not executed here); ranks 1..5 (the C++ supports 7)",
         "integer-vector indexing: ranks 1..4, argument-type patterns of the compiled menu (drv_views_idx.h); the default "
         "build is given admissible index-vector entries only; a zero extent behind a non-zero leading extent is probed by "
-        "seven fixed cases only (finding: IndexedArray::empty() tests dimension 0 only), the random streams select "
+        "seven fixed regression cases (finding F-47, fixed), the random streams select "
         "nothing only through the first non-scalar argument",
     ]
     if replay:
